@@ -702,8 +702,82 @@ fn families(w: Which, r: &Runner) {
     });
 }
 
+/// k leading CRLFs (k = 0..=40, also mixed with bare LF) followed by a start line that is
+/// valid, truncated after 1..=15 bytes, or has a bad byte among its first 15 bytes.
+fn phase_leading_lines(w: Which, r: &Runner) {
+    let kinds: &[Kind] = match w {
+        Which::C06 => &[Kind::Request],
+        Which::C07 => &[Kind::Response],
+        Which::C10 => &[Kind::Request, Kind::Response],
+        _ => return,
+    };
+    const BAD: [u8; 6] = [0x00, 0x01, b'\r', b' ', 0x7f, b'\t'];
+    let total = kinds.len() as u64 * 41 * 2 * (1 + 15 + 15 * BAD.len() as u64);
+    r.par_enum("k leading empty lines (0..=40, exact CRLF or mixed with LF) × {whole start line, cut after 1..=15 bytes, bad byte at each of the first 15 positions}", total, |ctx, l, idx| {
+        let per = 1 + 15 + 15 * BAD.len() as u64;
+        let v = idx % per;
+        let mut x = idx / per;
+        let mixed = x % 2 == 1;
+        x /= 2;
+        let k = (x % 41) as usize;
+        let kind = kinds[(x / 41) as usize];
+        let mut buf = Vec::new();
+        for i in 0..k {
+            buf.extend_from_slice(if mixed && i % 3 == 1 { b"\n" } else { b"\r\n" });
+        }
+        let line: &[u8] = if kind == Kind::Request { b"GET /index.html HTTP/1.1\r\nA: b\r\n\r\n" } else { b"HTTP/1.1 200 OK fine\r\nA: b\r\n\r\n" };
+        if v == 0 {
+            buf.extend_from_slice(line);
+        } else if v <= 15 {
+            buf.extend_from_slice(&line[..v as usize]);
+        } else {
+            let y = v - 16;
+            let pos = (y % 15) as usize;
+            let mut ln = line.to_vec();
+            ln[pos] = BAD[(y / 15) as usize];
+            // keep only up to a few bytes after the bad byte: the call must decide on what it has
+            ln.truncate(pos + 1 + (idx % 3) as usize);
+            buf.extend_from_slice(&ln);
+        }
+        let rec = CaseRec::new("model", Entry::cfg_entry(kind), 0, 8, buf);
+        check(w, r, ctx, l, &rec)
+    });
+}
+
+/// many header lines with ample capacity (a hidden cap on the number of headers shows as a
+/// TooManyHeaders that the model does not predict)
+fn phase_many_lines(w: Which, r: &Runner) {
+    if !matches!(w, Which::C08 | Which::C10 | Which::C14) {
+        return;
+    }
+    const KS: [usize; 8] = [100, 257, 1025, 4097, 5000, 9000, 33000, 70000];
+    r.par_enum("k header lines for k in {100,257,1025,4097,5000,9000,33000,70000} × capacity k+{0,1,50} × 3 entry kinds × {complete, truncated}", 8 * 3 * 3 * 2, |ctx, l, idx| {
+        let mut x = idx;
+        let trunc = x % 2 == 1;
+        x /= 2;
+        let entry = [Entry::Headers, Entry::ReqCfg, Entry::RespCfg][(x % 3) as usize];
+        x /= 3;
+        let dc = [0usize, 1, 50][(x % 3) as usize];
+        let k = KS[(x / 3) as usize];
+        if w == Which::C14 && entry == Entry::Headers {
+            return Ok(());
+        }
+        let mut block = Vec::with_capacity(k * 8);
+        for i in 0..k {
+            block.extend_from_slice(if i % 3 == 0 { b"a: b\r\n" } else { b"Cc:d\n" });
+        }
+        if !trunc {
+            block.extend_from_slice(b"\r\n");
+        }
+        let rec = CaseRec::new("model", entry, 0, k + dc, with_start_line(entry.kind(), &block));
+        check(w, r, ctx, l, &rec)
+    });
+}
+
 pub fn run(w: Which, r: &Runner) {
     families(w, r);
+    phase_leading_lines(w, r);
+    phase_many_lines(w, r);
     match w {
         Which::C06 => {
             phase_start_sweep(w, r);
